@@ -63,5 +63,12 @@ if res.get('confirmed') and '--record' in sys.argv:
                              'every check via ./vcheck <id> --repo <scratch> --no-selftest'],
             'detected_by': {q: v['lines'][:2] for q, v in res['detected_by'].items()},
             'own_check_exit': res['own_check'].get('rc', 0)}
-    json.dump(meta, open(os.path.join(d, 'meta.json'), 'w'), indent=1)
+    mp = os.path.join(d, 'meta.json')
+    if os.path.exists(mp):
+        old = json.load(open(mp))
+        for k in ('expect', 'own_check_note'):
+            if k in old:
+                meta[k] = old[k]
+    meta.setdefault('expect', 'BREAKS' if res['own_check'].get('rc') == 1 else 'INCONCLUSIVE')
+    json.dump(meta, open(mp, 'w'), indent=1)
     print('recorded', d)
